@@ -43,6 +43,8 @@ def plan(tier, seed):
     nrep = 3 if tier == "quick" else 60
     for name, mod in sorted(writers().items()):
         for klass in mod.CLASSES:
+            if klass in getattr(mod, "NOT_ASSERTED", {}):
+                continue
             for rep in range(nrep):
                 cases.append({"writer": name, "klass": klass, "rep": rep, "seed": seed})
     return cases
@@ -58,8 +60,22 @@ def fmt_path(path):
     return ".".join(str(p) for p in path)
 
 
-def classify(writer, path):
-    return f"{writer}:{fmt_path(path[:2] if len(path) > 1 and isinstance(path[1], str) else path[:1])}"
+def classify(writer, path, klass="", got=None, want=None):
+    """Mechanism key of a value mismatch.
+
+    A mismatch by a recognisable unit factor is keyed by (writer, attribute, factor) whatever the model class;
+    anything else by (writer, model class = the input feature that triggers it, attribute).
+    """
+    from ..ref import units
+
+    try:
+        ratio = float(got) / float(want)
+        name = units.named_ratio(ratio)
+        if name is not None:
+            return f"{writer}:unit:{fmt_path(path[:1])}:{name}"
+    except (TypeError, ValueError, ZeroDivisionError):
+        pass
+    return f"{writer}:{klass}:{fmt_path(path[:2] if len(path) > 1 and isinstance(path[1], str) else path[:1])}"
 
 
 def run_case(case):
@@ -87,16 +103,16 @@ def run_case(case):
             except LoadError as exc:
                 data = None
                 counters["load_errors"] += 1
-                viols.append(_v(f"{case['writer']}:load-refused", f"well-formed {case['writer']} file ({case['klass']}) refused: {exc}",
+                viols.append(_v(f"{case['writer']}:{case['klass']}:load-refused", f"well-formed {case['writer']} file ({case['klass']}) refused: {exc}",
                                 cause=repr(exc.__cause__)))
         if data is not None:
             counters["load_one_ok"] += 1
             for p, got, want, note in base.compare(data, exp):
-                viols.append(_v(classify(case["writer"], p), f"{case['writer']}/{case['klass']}: {fmt_path(p)} = {got!r}, file says {want!r} ({note})"))
+                viols.append(_v(classify(case["writer"], p, case["klass"], got, want), f"{case['writer']}/{case['klass']}: {fmt_path(p)} = {got!r}, file says {want!r} ({note})"))
             counters["values_compared"] += len(exp)
             if base.WFN in exp:
                 for msg in wfncompare.compare_wfn(exp[base.WFN], data, rng, rel_tol=getattr(mod, "WFN_REL_TOL", 1e-6)):
-                    viols.append(_v(f"{case['writer']}:wavefunction", f"{case['writer']}/{case['klass']}: {msg}"))
+                    viols.append(_v(f"{case['writer']}:{case['klass']}:wavefunction", f"{case['writer']}/{case['klass']}: {msg}"))
                 counters["values_compared"] += 1
         if hasattr(mod, "frames") and hasattr(iodata.api.FORMAT_MODULES[mod.FORMAT], "load_many"):
             fexp = mod.frames(model)
@@ -107,21 +123,29 @@ def run_case(case):
                     for d in iodata.load_many(path, fmt=fmt, **kwargs):
                         got_frames.append(d)
                 except LoadError as exc:
-                    viols.append(_v(f"{case['writer']}:load_many-refused", f"load_many refused a well-formed file after {len(got_frames)} frames: {exc}"))
+                    viols.append(_v(f"{case['writer']}:{case['klass']}:load_many-refused", f"load_many refused a well-formed file after {len(got_frames)} frames: {exc}"))
             counters["frames_loaded"] += len(got_frames)
             if len(got_frames) != len(fexp):
-                viols.append(_v(f"{case['writer']}:frame-count", f"{case['writer']}/{case['klass']}: load_many yielded {len(got_frames)} frames, file has {len(fexp)}"))
+                viols.append(_v(f"{case['writer']}:{case['klass']}:frame-count", f"{case['writer']}/{case['klass']}: load_many yielded {len(got_frames)} frames, file has {len(fexp)}"))
             for k, (d, e) in enumerate(zip(got_frames, fexp)):
                 for p, got, want, note in base.compare(d, e):
-                    viols.append(_v(classify(case["writer"], p), f"{case['writer']}/{case['klass']} frame {k}: {fmt_path(p)} = {got!r}, file says {want!r} ({note})"))
+                    viols.append(_v(classify(case["writer"], p, case["klass"], got, want), f"{case['writer']}/{case['klass']} frame {k}: {fmt_path(p)} = {got!r}, file says {want!r} ({note})"))
                 counters["values_compared"] += len(e)
     finally:
         shutil.rmtree(root, ignore_errors=True)
     feats = [f"{case['writer']}:{case['klass']}:" + ",".join(model.get("features", []))] if counters["values_compared"] else []
+    # one entry per mechanism key (with a count), so that a listed finding can never crowd out an unlisted one
+    bykey = {}
+    for v in viols:
+        if v["key"] in bykey:
+            bykey[v["key"]]["count"] = bykey[v["key"]].get("count", 1) + 1
+        else:
+            bykey[v["key"]] = v
+    viols = list(bykey.values())
     for v in viols:
         v["file_head"] = text[:1500]
     sample = {"writer": case["writer"], "class": case["klass"], "features": model.get("features"), "file_head": text[:300]}
-    return {"status": "violation" if viols else "ok", "violations": viols[:8], "features": feats, "counters": counters, "sample": sample}
+    return {"status": "violation" if viols else "ok", "violations": viols[:40], "features": feats, "counters": counters, "sample": sample}
 
 
 def finish(results, tier):
